@@ -119,6 +119,46 @@ func (c *Chain) exec(msg sdk.Msg, validate bool) (out ExecResult) {
 	return out
 }
 
+// ExecTx runs several messages as ONE transaction: every message is validated first, then all run on one branch that is
+// written only if all of them succeed (what baseapp.runTx does for a multi-message transaction). The result carries the
+// index of the failing message in Err.
+func (c *Chain) ExecTx(msgs ...sdk.Msg) (out ExecResult) {
+	for i, msg := range msgs {
+		if v, ok := msg.(validator); ok {
+			if err := v.ValidateBasic(); err != nil {
+				return ExecResult{Err: fmt.Errorf("message %d: validate basic: %w", i, err)}
+			}
+		}
+	}
+	cctx, write := c.Ctx.CacheContext()
+	cctx = cctx.WithEventManager(sdk.NewEventManager())
+	for i, msg := range msgs {
+		handler := c.App.MsgServiceRouter().Handler(msg)
+		if handler == nil {
+			return ExecResult{Err: fmt.Errorf("message %d: no handler for %T", i, msg)}
+		}
+		func() {
+			defer func() {
+				if r := recover(); r != nil {
+					out.Panic = r
+					out.Err = fmt.Errorf("message %d: panic: %v", i, r)
+				}
+			}()
+			var err error
+			out.Res, err = handler(cctx, msg)
+			if err != nil {
+				out.Err = fmt.Errorf("message %d: %w", i, err)
+			}
+		}()
+		if out.Err != nil {
+			return out
+		}
+	}
+	write()
+	out.Events = cctx.EventManager().Events()
+	return out
+}
+
 // Try runs f on a branch with panic recovery and writes the branch only if f returns nil
 // (for keeper-level operations that have no message, e.g. governance-only calls).
 func (c *Chain) Try(f func(ctx sdk.Context) error) (err error) {
